@@ -39,7 +39,9 @@ type Disk struct {
 	// statistics (what actually fired)
 	Fired     map[string]int
 	Killer    func() // called on crash; must not return
-	TempNames uint64 // PRNG state for CreateTemp names
+	stickyCall  string
+	stickyFault Fault
+	TempNames   uint64 // PRNG state for CreateTemp names
 	Quiet     bool   // do not record trace (harness operations)
 }
 
@@ -67,6 +69,9 @@ type Fault struct {
 	Event int    `json:"event"`
 	Kind  string `json:"kind"` // EACCES EIO ENOSPC EMFILE EROFS EINTR SHORT
 	Arg   int    `json:"arg,omitempty"`
+	// Sticky: once fired, every later system call of the same name fails the same way until the
+	// plan is cleared (a condition that persists, e.g. a full or read-only disk: retry loops must end)
+	Sticky bool `json:"sticky,omitempty"`
 }
 
 // CrashPoint kills the process at syscall number Event: before it, after it,
@@ -154,7 +159,17 @@ func (d *Disk) begin(call, p string) (n int, f *Fault) {
 	for i := range d.Faults {
 		if d.Faults[i].Event == n {
 			f = &d.Faults[i]
+			if f.Sticky {
+				d.stickyCall, d.stickyFault = call, Fault{Event: -1, Kind: f.Kind, Arg: f.Arg}
+			}
 		}
+	}
+	if f == nil && d.stickyCall != "" && d.stickyCall == call && len(d.Faults) > 0 {
+		d.Fired["sticky-repeat"]++
+		f = &d.stickyFault
+	}
+	if len(d.Faults) == 0 {
+		d.stickyCall = ""
 	}
 	return n, f
 }
@@ -827,6 +842,7 @@ func (d *Disk) Clone() *Disk {
 // ResetPlan clears faults, crash point, trace and statistics (restart).
 func (d *Disk) ResetPlan() {
 	d.Faults, d.Crash, d.Crashed = nil, nil, false
+	d.stickyCall = ""
 	d.WriteSplit, d.wsIdx, d.ReadChunk = nil, 0, 0
 	d.Trace, d.Journal, d.NEvents = nil, nil, 0
 	d.Killer = nil
